@@ -194,6 +194,112 @@ def applyTamper (slots : List (Nat × Bytes)) (ns : List PBase) (cls : String) (
       | _, _ => none
     | _ => none
 
+/-! ### c15wmpt: descriptions of decoded CBOR (see suite_c15wmpt.go) -/
+
+def descBytes (b : Bytes) : String := if b.isEmpty then "-" else hex b
+
+def descBase (p : PBase) : String :=
+  let parts : List String :=
+    (match p.branch with | some b => ["B:" ++ descBytes b.hash ++ ":" ++ ",".intercalate (b.children.map descBytes)] | none => [])
+    ++ (match p.value with | some v => [s!"V:{descBytes v.value}:{descBytes v.hash}:{v.weight}"] | none => [])
+    ++ (match p.short with | some v => [s!"S:{descBytes v.key}:{descBytes v.hash}:{descBytes v.value}"] | none => [])
+    ++ (if p.nilNode then ["N"] else [])
+    ++ (match p.hashNode with | some v => [s!"H:{descBytes v.hash}:{v.weight}"] | none => [])
+  if parts.isEmpty then "0" else ";".intercalate parts
+
+def parseBase (d : String) : Option PBase :=
+  if d = "0" then some {} else
+  (d.splitOn ";").foldlM (fun (p : PBase) part =>
+    match part.splitOn ":" with
+    | ["B", h, cs] => do
+      let h ← unhex h
+      let cs ← if cs = "" then some [] else (cs.splitOn ",").mapM unhex
+      pure { p with branch := some ⟨h, cs⟩ }
+    | ["V", v, h, w] => do pure { p with value := some ⟨← unhex v, ← unhex h, ← w.toNat?⟩ }
+    | ["S", k, h, v] => do pure { p with short := some ⟨← unhex k, ← unhex h, ← unhex v⟩ }
+    | ["N"] => some { p with nilNode := true }
+    | ["H", h, w] => do pure { p with hashNode := some ⟨← unhex h, ← w.toNat?⟩ }
+    | _ => none) {}
+
+def parsePairs (d : String) : Option (List PairD) :=
+  if d = "Z" then some [] else
+  (d.splitOn "/").mapM (fun e =>
+    if e = "n" then some PairD.nilPair
+    else if e = "E" then some PairD.bad
+    else (parseBase e).map PairD.ok)
+
+/-- the model's own CBOR decoder against the library's verdict: whenever it accepts, it must agree -/
+def crossNode (bytes : Bytes) (desc : String) : String :=
+  match Cbor.decBase bytes, (if desc = "E" then none else parseBase desc) with
+  | some _, none => " !cbor-model-accepts-what-the-library-rejects"
+  | some p', some p => if p' = p then "" else " !cbor-model-decodes-differently"
+  | none, some p => if Cbor.encBase p = bytes then " !cbor-model-rejects-a-canonical-encoding" else ""
+  | none, none => ""
+
+def crossTrie (bytes : Bytes) (desc : String) : String :=
+  match Cbor.decTrie bytes, (if desc = "X" then none else parsePairs desc) with
+  | some _, none => " !cbor-model-accepts-what-the-library-rejects"
+  | some ps, some ds =>
+    if ps.length ≠ ds.length then " !cbor-model-decodes-differently"
+    else if (ps.zip ds).all (fun (p, d) =>
+      match PairD.ofBytes p, d with
+      | .nilPair, .nilPair => true
+      | .ok a, .ok b => a = b
+      | .ok _, _ => false
+      | .bad, .nilPair => false
+      | .bad, _ => true
+      | .nilPair, _ => false) then "" else " !cbor-model-decodes-differently"
+  | none, _ => ""
+
+def c15Step (w : List String) : Option String :=
+  match w with
+  | ["dnode", hx, desc] =>
+    match unhex hx with
+    | none => some "bad-op"
+    | some bytes =>
+      let out :=
+        if desc = "E" then "err"
+        else match parseBase desc with
+          | none => "bad-desc"
+          | some p =>
+            match deserializeNode p with
+            | .err .panic => "panic"
+            | .err _ => "err"
+            | .ok n => "ok " ++ descBase (serializeP Hh n).2
+      some (out ++ crossNode bytes desc)
+  | ["vproof", b, hx, desc] =>
+    match unhex hx with
+    | none => some "bad-op"
+    | some bytes =>
+      let out :=
+        if desc = "X" ∨ bytes.isEmpty then "err"
+        else match parsePairs desc with
+          | none => "bad-desc"
+          | some ps =>
+            match verifyPairs Hh ps b.toNat! with
+            | .err .panic => "panic"
+            | .err _ => "err"
+            | .ok (h, v) => s!"ok {hex h} {hexOrDash v}"
+      some (out ++ crossTrie bytes desc)
+  | ["dtrie", hx, desc] =>
+    match unhex hx with
+    | none => some "bad-op"
+    | some bytes =>
+      let out :=
+        if desc = "X" then "err"
+        else match parsePairs desc with
+          | none => "bad-desc"
+          | some ps =>
+            match importPairs Hh ps with
+            | .err .panic => "panic"
+            | .err _ => "err"
+            | .ok r =>
+              let root : WN := match r with | some n => n | none => .empty
+              let (t, h) := rootHash Hh { root := root, hasDb := false }
+              s!"ok {hex h} {t.weight} {descBase (serializeP Hh t.root).2}"
+      some (out ++ crossTrie bytes desc)
+  | _ => none
+
 /-! ### the state machine -/
 
 def applyTo (t : WT) (ops : List StoreOp) : WT := { t with store := t.store.apply ops }
@@ -244,6 +350,9 @@ def stateStr (t : WT) : WT × String :=
   (t', s!"{r} {t'.weight}")
 
 def step (s : St) (w : List String) : St × String :=
+  match c15Step w with
+  | some out => (s, out)
+  | none =>
   match w with
   | ["upd", k, v, wt] =>
     match parseKey k, unhex v with
